@@ -834,8 +834,13 @@ def run(ctx):
         # which the three operators are run hands (data, operands) to the operator once and returns its result as a new
         # value, with no exit of its own (a guard, a counter or a cache that can fail the operation by itself)
         from .c04 import operator_receives_operand_list
-        r0_ = Roles(raw)
-        operator_receives_operand_list(ctx, raw, r0_, r0_.fn_of("all")[1].table, cfg, "K7")
+        try:
+            r0_, f0_ = Roles(raw), raw
+        except Inconclusive:
+            # the program as written hides a role behind a private helper (the parsers delegate to `parse_operation`): the
+            # evaluator clause is read on the helper-inlined view this run already works on
+            r0_, f0_ = Roles(facts), facts
+        operator_receives_operand_list(ctx, f0_, r0_, r0_.fn_of("all")[1].table, cfg, "K7")
         ctx.obls.extend(sub.obls)
         ctx.viol.extend(sub.viol)
         ctx.undecided.extend(sub.undecided)
